@@ -742,6 +742,24 @@ impl Worker {
         }
     }
 
+    fn read_file_set(&self, file_set: &mut ActiveFileSet) {
+        let _ = file_set
+            .read(&self.fs, &self.file_prefix, &self.file_ext)
+            .map_err(|err| {
+                self.metrics.file_set_read_failed.increment();
+
+                emit::warn!(
+                    rt: emit::runtime::internal(),
+                    "failed to files in read {path}: {err}",
+                    #[emit::as_debug]
+                    path: &file_set.dir,
+                    err,
+                );
+
+                err
+            });
+    }
+
     #[emit::span(rt: emit::runtime::internal(), guard: span, "write file batch")]
     fn on_batch(&mut self, mut batch: EventBatch) -> Result<(), BatchError<EventBatch>> {
         let ts = self.clock.now().unwrap();
@@ -769,23 +787,9 @@ impl Worker {
                 return Err(emit_batcher::BatchError::retry(err, batch));
             }
 
-            let _ = file_set
-                .read(&self.fs, &self.file_prefix, &self.file_ext)
-                .map_err(|err| {
-                    self.metrics.file_set_read_failed.increment();
-
-                    emit::warn!(
-                        rt: emit::runtime::internal(),
-                        "failed to files in read {path}: {err}",
-                        #[emit::as_debug]
-                        path: &file_set.dir,
-                        err,
-                    );
-
-                    err
-                });
-
             if self.reuse_files {
+                self.read_file_set(&mut file_set);
+
                 if let Some(file_name) = file_set.current_file_name() {
                     let mut path = PathBuf::from(&self.dir);
                     path.push(file_name);
@@ -817,6 +821,11 @@ impl Worker {
         let mut file = if let Some(file) = file {
             file
         } else {
+            // Retention needs an up to date view of the files in the set
+            // This also covers the case where we're rolling over from
+            // an active file, where the set hasn't been read at all yet
+            self.read_file_set(&mut file_set);
+
             // Leave room for the file we're about to create
             file_set.apply_retention(&self.fs, self.max_files.saturating_sub(1));
 
